@@ -408,6 +408,10 @@ func (g *bgen) schema(doc string, depth int, allowRef bool) O {
 			its = append(its, g.schema(doc, depth+1, allowRef))
 		}
 		s := O{"type": "array", "items": its}
+		if g.Pct(20) {
+			delete(s, "type") // "type" is optional: positional items make a tuple all the same
+			g.Label("tuple:typeless")
+		}
 		if g.Pct(40) {
 			if g.Pct(70) {
 				s["additionalItems"] = g.schema(doc, depth+1, allowRef)
